@@ -63,7 +63,42 @@ fn real_decompress(data: &plonky2::plonk::circuit_data::CircuitData<F, C, 2>, cp
     }
 }
 
+/// Forged proof objects (see `forge.rs`): all-zero polynomials for an arbitrary public-input vector,
+/// quotient openings dropped. Plain and compressed verification must agree (C16) and neither may
+/// accept (C02/C03/C18): the claimed public inputs are NOT the circuit's outputs.
+fn forged_shapes(e: &mut Emitter, seed: u64, thorough: bool) {
+    let mut r = Rng::new(seed ^ 0x16F0);
+    for k in 0..(if thorough { 4 } else { 2 }) {
+        let nops = r.range(10, 60) as usize;
+        let prog = gen_prog(&mut r, nops, if k % 2 == 0 { 0 } else { 1 });
+        let mut config = CircuitConfig::standard_recursion_config();
+        if k % 2 == 1 { config.security_bits = 8; config.fri_config.num_query_rounds = 3; config.fri_config.proof_of_work_bits = 2; }
+        e.stage("building a circuit for the forged-shape test");
+        let Ok((data, _)) = std::panic::catch_unwind(std::panic::AssertUnwindSafe(|| prog.build(config.clone()))) else { continue };
+        let (_, honest_pis) = prog.eval();
+        // claimed public inputs: wrong on purpose
+        let claimed: Vec<F> = honest_pis.iter().map(|x| *x + F::from_canonical_u64(1 + r.below(1000))).collect();
+        if claimed.is_empty() { continue; }
+        e.stage("impl: forging a proof object with dropped quotient openings");
+        let Ok(forged) = std::panic::catch_unwind(std::panic::AssertUnwindSafe(|| crate::forge::forge_compressed_shape(&data, claimed.clone()))) else { e.count("forged shape: forger panicked"); continue; };
+        let d = &data;
+        let f2 = forged.clone();
+        let plain = match std::panic::catch_unwind(std::panic::AssertUnwindSafe(|| d.verify(f2))) { Ok(Ok(())) => "OK", Ok(Err(_)) => "ERR", Err(_) => "PANIC" };
+        let comp = match std::panic::catch_unwind(std::panic::AssertUnwindSafe(|| -> anyhow::Result<()> {
+            let cp = forged.clone().compress(&d.verifier_only.circuit_digest, &d.common)?;
+            d.verify_compressed(cp)
+        })) { Ok(Ok(())) => "OK", Ok(Err(_)) => "ERR", Err(_) => "PANIC" };
+        e.count(&format!("forged shape (false public inputs): verify={plain} verify_compressed(compress)={comp}"));
+        if plain == "OK" { e.oracle_failures.push("FORGED proof (all-zero polynomials, false public inputs) ACCEPTED by verify".into()); }
+        if comp == "OK" {
+            e.oracle_failures.push(format!("F-C16-1: FORGED proof (all-zero polynomials, quotient openings dropped, FALSE public inputs) ACCEPTED by verify_compressed while verify says {plain}; security_bits {}", config.security_bits));
+        }
+    }
+}
+
 pub fn emit(e: &mut Emitter, seed: u64, thorough: bool) {
+    forged_shapes(e, seed, thorough);
+
     let mut r = Rng::new(seed ^ 0x16);
     let n_circuits = if thorough { 40 } else { 10 };
     let mut made = 0;
